@@ -593,7 +593,12 @@ func (m *Manager) retrieveBatch(ctx context.Context) (*BatchData, error) {
 }
 
 func (m *Manager) isUsingExpectedSingleSequencer(header *types.SignedHeader) bool {
-	return bytes.Equal(header.ProposerAddress, m.genesis.ProposerAddress) && header.ValidateBasic() == nil
+	if !bytes.Equal(header.ProposerAddress, m.genesis.ProposerAddress) || header.ValidateBasic() != nil {
+		return false
+	}
+	// ValidateBasic checked the signature against the public key carried inside the header and
+	// the address against the header's own signer address: the key itself must be the proposer's.
+	return header.Signer.PubKey != nil && bytes.Equal(types.KeyAddress(header.Signer.PubKey), m.genesis.ProposerAddress)
 }
 
 // publishBlockInternal is the internal implementation for publishing a block.
@@ -1101,6 +1106,10 @@ func (m *Manager) isValidSignedData(signedData *types.SignedData) bool {
 		return false
 	}
 	if !bytes.Equal(signedData.Signer.Address, m.genesis.ProposerAddress) {
+		return false
+	}
+	// the key the signature is verified with must be the proposer's, not merely claim its address
+	if signedData.Signer.PubKey == nil || !bytes.Equal(types.KeyAddress(signedData.Signer.PubKey), m.genesis.ProposerAddress) {
 		return false
 	}
 	dataBytes, err := signedData.Data.MarshalBinary()
